@@ -372,9 +372,9 @@ def trusted_lines(units):
         p = os.path.join(BUILD, u + ".rs")
         if os.path.exists(p):
             for l in open(p):
-                m = re.search(r"//\s*\[(A-[a-z\-]+)\]\s*(.*)", l)
+                m = re.search(r"//+\s*((?:N\d+\s+)?)\[(A-[a-z\-]+)\]:?\s*(.*)", l)
                 if m:
-                    s = f"{m.group(1)}: {m.group(2).strip()}"
+                    s = f"{m.group(2)}: {m.group(1)}{m.group(3).strip()}"
                     if s not in seen:
                         seen.append(s)
     return seen
